@@ -103,7 +103,8 @@ def parse(text):
 
 
 def net(summary_part):
-    return {k: summary_part[k] - summary_part[k + "_f"] for k in ("removed", "changed", "added")}
+    """the numbers the summary prints are already net (total minus filtered); the parenthesised number is what was filtered"""
+    return {k: summary_part[k] for k in ("removed", "changed", "added")}
 
 
 def has_net_change(r):
@@ -111,6 +112,6 @@ def has_net_change(r):
         n = net(part)
         if n["removed"] or n["changed"] or n["added"]:
             return True
-    if r["leaf"].get("artifacts", 0) - r["leaf"].get("artifacts_f", 0) > 0:
+    if r["leaf"].get("artifacts", 0) > 0:
         return True
     return r["soname"] or r["arch"]
